@@ -58,14 +58,20 @@ class C02(Sim):
     expected_probes = [
         "nan_row_after_boundary_lock_previous", "nan_first_row_after_restart_with_default", "out_of_range_row_lock_range",
         "one_row_segment", "matrix_setter_single_input", "all_nan_segment", "parity_event", "hybrid_engine",
-        "output_variable_in_antecedent", "vector_setter", "cascade_changed_a_row", "configuration_changed_between_segments", "scalar0d_setter", "mixed_family_output_with_disjoint_rules",
+        "output_variable_in_antecedent", "vector_setter", "cascade_changed_a_row", "configuration_changed_between_segments", "scalar0d_setter", "mixed_family_output_with_disjoint_rules", "shipped_example_engine",
     ]
+
+    def prepare(self) -> None:
+        S.load_example_specs()
 
     # ---------------------------------------------------------------- generation
     def cases(self, rng, run: int, tier: str) -> Iterator[dict]:
         sp = S.gen_spec(rng, activations=["General"], fn_reads_output=False)
-        if rng.random() < 0.06:
+        r0 = rng.random()
+        if r0 < 0.06:
             S.make_hybrid_output(rng, sp)
+        elif r0 < 0.18:
+            sp = S.example_spec(rng) or sp  # one of the 61 shipped engines
         n_ops = rng.randint(2, 10 if tier == "quick" else 16)
         maxrows = rng.choice([2, 4, 8, 16])
         special = rng.choice([0.05, 0.2, 0.2, 0.5])
@@ -125,6 +131,8 @@ class C02(Sim):
         fams = {o["family"] for o in sp["outputs"]}
         if len(fams) > 1:
             st.hit("probes.hybrid_engine")
+        if sp.get("flags", {}).get("example"):
+            st.hit("probes.shipped_example_engine")
         if sp.get("flags", {}).get("hybrid_output"):
             st.hit("probes.mixed_family_output_with_disjoint_rules")
         outs = {o["name"] for o in sp["outputs"]}
